@@ -1,6 +1,6 @@
 """property -> rule sets (DESIGN §4)"""
 from engine import ok, bad, assumed, floor
-import r_lock, r_panic, r_errd, r_order, r_misc, r_nowrap, r_desc
+import r_lock, r_panic, r_errd, r_order, r_misc, r_nowrap, r_desc, r_registry, r_effects
 
 PROPS = {}
 
@@ -155,3 +155,66 @@ def c18(ctx):
         pobs, sites = r_panic.evaluate(reach)
         obs += pobs
     return obs, {'analysed': {'describe_reach': len(reach) if d else 0, 'key_bodies': len(dm.key_bodies)}}
+
+
+def reg_model(ctx):
+    if 'rm' not in ctx.cache:
+        ctx.cache['rm'] = r_registry.RegModel(ctx.prog, ctx.lm)
+    return ctx.cache['rm']
+
+
+@prop('C08',
+      'WINIT: in every public register_* / parse_expression / execute, each call that can reach a registry lock is dominated by a call to the once-initialiser (found by role: the body running a blocking once primitive on the OnceCell<()> static), '
+      'and the built-in fillers (bodies creating the built-in handler closures) are called only from that once-closure — so built-ins can never later overwrite a user registration, also when the replacement is made before first use. '
+      'WINSERT: each registry writer applies exactly one HashMap::insert (replace semantics = most recently registered wins) with key = the name parameter and value = the remaining parameters unchanged, in one map value '
+      '(precedence, type, associativity and handler of an infix operator are one entry: a lookup can never pair a new handler with an old precedence); register_* hand their parameters through unchanged and in order; only register_* and the fillers call writers. '
+      'WDISP: the call-node evaluator consults the context first (Function entries only) and the global registry only on the None edge. RECV + STATICS: every invoked handler is the result of a lookup made in this evaluation; '
+      'the static inventory is exactly {once flag, 4 registries, descriptor store}: no handler cache.',
+      not_decided='that an infix operator registered with an arbitrary precedence groups correctly against every neighbour (binding-power arithmetic over unboundedly many loop iterations: a value property; see DESIGN §4.8 / WGATE)',
+      assumptions=COMMON_ASSUME)
+def c08(ctx):
+    rm = reg_model(ctx)
+    em = eval_model(ctx)
+    obs = r_registry.rule_winit(rm)
+    obs += r_registry.rule_winsert(rm)
+    obs += r_registry.rule_wdisp(rm, em)
+    obs += r_registry.rule_receivers(rm, em)
+    obs += r_misc.rule_statics(ctx)
+    return obs, {'analysed': {'writers': len(rm.writers), 'fillers': len(rm.fillers), 'must_init_bodies': len(rm.must_init)}}
+
+
+@prop('C13',
+      'UNSAFE: no unsafe block / fn / impl and no static mut (HIR scan); every static is a synchronised cell (OnceCell / Mutex) — with that, data-race freedom and "no torn map" follow from the type system. '
+      'WINIT: every public entry point runs the once-initialiser before any registry access, the initialiser is a blocking once primitive, and the built-in fillers are reachable only from its closure '
+      '(a hand-rolled flag set before the tables are filled moves the fillers out of a once-closure and is caught): no thread observes a partially initialised table. '
+      'LOCK-b: at every call site with a live guard no lock acquisition is reachable and the once-closure never re-enters its owner: the held->acquired graph is ONCE -> REGISTRY only, acyclic: no deadlock among engine locks under any schedule. '
+      'LOCK-c: no engine panic site inside a guard-live region (no poisoning => lock().unwrap() cannot panic).',
+      not_decided='that each call\'s result equals that of some sequential order for arbitrary interleavings (linearizability of results is a property of histories); SNAP (one registry snapshot per node) is not claimed',
+      assumptions=COMMON_ASSUME)
+def c13(ctx):
+    rm = reg_model(ctx)
+    lm = ctx.lm
+    obs = r_misc.rule_unsafe(ctx)
+    obs += r_misc.rule_statics(ctx)
+    obs += r_registry.rule_winit(rm)
+    o2, n = r_lock.rule_lock_a(lm, want=('b', 'c'))
+    obs += o2
+    obs += r_lock.rule_once(lm)
+    obs += r_lock.rule_escape(lm)
+    obs += r_lock.rule_floors(lm)
+    return obs, {'analysed': {'guard_live_call_sites': n, 'statics': len(ctx.facts.statics)}}
+
+
+@prop('C16',
+      'EFFECTS over Reach(parse_expression, execute, ExprAST::exec / expr / describe) with the once-initialiser subtree excluded: no &mut HashMap method and no DerefMut on a REGISTRY / DESCRIPTOR guard (globals are read-only there); '
+      'no call into a nondeterminism / ambient-state source (time, env, fs, net, thread id, RandomState, atomics); no iteration over a HashMap / HashSet (lookups only). '
+      'STATICS: the static inventory equals the six known cells, no thread_local. FREEZE: ExprAST, Literal, Value contain no UnsafeCell, so exec(&self) cannot change the tree. '
+      'Context::new builds a fresh map and reaches no static; every context lock is taken on (a field of) a parameter.',
+      not_decided='that results are functions of the text (a value property); a correct global memo would also be flagged (accepted, DESIGN §6)',
+      assumptions=COMMON_ASSUME)
+def c16(ctx):
+    rm = reg_model(ctx)
+    obs, n = r_effects.rule_effects(ctx, rm)
+    obs += r_misc.rule_statics(ctx)
+    obs += r_misc.rule_freeze(ctx)
+    return obs, {'analysed': {'scope_bodies': n}}
